@@ -219,6 +219,8 @@ def run_check(pid, tier, seed, jobs):
                 tot.extra[k] = max(tot.extra.get(k, v), v)
             elif isinstance(v, (int, float)):
                 tot.extra[k] = tot.extra.get(k, 0) + v
+            elif isinstance(v, dict):
+                tot.extra.setdefault(k, {}).update(v)
             else:
                 tot.extra[k] = v
     # samples: seed selects which shards contribute
